@@ -1,5 +1,5 @@
 # C17: the emitted configuration reproduces the run
-import os, json, shutil, tempfile, subprocess
+import os, re, json, shutil, tempfile, subprocess
 from multiprocessing import Pool
 import vlib, corpus
 
@@ -40,7 +40,9 @@ def gen_stack(r, ids, groups, k, opts=()):
             # a rule switched off with non-default options in the rule section and switched on again for one file
             rid, o = r.choice(opts)
             cfg["rule"][rid] = dict(o, disable=True)
-            cfg["file_rules"] = [{"f0.vhd": {"rule": {rid: {"disable": False}}}}]
+            # the per-file key is matched against the name given on the command line: also spellings that are not
+            # in normalised form (the same spelling is used for -f)
+            cfg["file_rules"] = [{r.choice(["f0.vhd", "./f0.vhd", "x/../f0.vhd", "f0.vhd"]): {"rule": {rid: {"disable": False}}}}]
             cfg["__focus__"] = rid
         focus.append(cfg.pop("__focus__", None))
         files.append(yaml.safe_dump(cfg))
@@ -76,18 +78,25 @@ def _case(job):
                 att = next(y for y in a["rule"][rid] if a["rule"][rid][y] != b["rule"].get(rid, {}).get(y))
                 detail = "rule %s attribute %s: %r -> %r" % (rid, att, a["rule"][rid][att], b["rule"].get(rid, {}).get(att))
             res["problems"].append(("oc-not-idempotent:" + ks[0], "emitting the emitted configuration again gives a different file (%s)" % detail))
+        name0 = "f0.vhd"
+        for t in stack:
+            m0 = re.search(r"file_rules:\n- (\S*f0\.vhd):", t)
+            if m0:
+                name0 = m0.group(1)
+        os.makedirs(os.path.join(d, "x"), exist_ok=True)
         for i, src in enumerate(srcs):
             out = {}
+            fname = name0 if i == 0 else "f%d.vhd" % i
             for tag, args in (("orig", base), ("emitted", ["-c", "oc1.json"])):
                 f = os.path.join(d, "f%d.vhd" % i)
                 shutil.copy(src, f)
-                rc, so, se = cli(["-f", "f%d.vhd" % i, "-ap", "-p", "1", "--json", "j.json"] + args, d)
+                rc, so, se = cli(["-f", fname, "-ap", "-p", "1", "--json", "j.json"] + args, d)
                 try:
                     v = sorted((x["rule"], x["linenumber"], x["severity"], x["solution"]) for fe in json.load(open(os.path.join(d, "j.json")))["files"] for x in fe["violations"])
                 except Exception:
                     v = "no-report:" + ([l for l in se.strip().split("\n") if l.strip()][-1:] or ["?"])[0][:120]
                 shutil.copy(src, f)
-                rc2, so2, se2 = cli(["-f", "f%d.vhd" % i, "--fix", "-p", "1"] + args, d)
+                rc2, so2, se2 = cli(["-f", fname, "--fix", "-p", "1"] + args, d)
                 out[tag] = (rc, v, open(f).read(), rc2)
                 for x in ("j.json",):
                     try:
@@ -140,7 +149,7 @@ def run(tier):
         srcs = r.sample(pool, nfiles)
         # when a stack re-enables a rule for f0.vhd, analyse that rule's own fixture as f0.vhd
         for t in stack:
-            m = re.search(r"file_rules:\n- f0.vhd:\n    rule:\n      (\w+):", t)
+            m = re.search(r"file_rules:\n- \S*f0.vhd:\n    rule:\n      (\w+):", t)
             if m and optharvest.fixtures_for(m.group(1), rtab):
                 srcs[0] = [f for f in optharvest.fixtures_for(m.group(1), rtab) if f.endswith("test_input.vhd")][0]
         jobs.append((k, style, stack, srcs, tmp))
